@@ -4,6 +4,7 @@ CONSTANTS
   NUp = 0
   NDown = 0
   MaxFaults = 1000
+  MaxDrops = 0
 SPECIFICATION TSpec
 INVARIANTS OneAcceptPerSession OneCurrent NeverDead NoFlags
 CONSTRAINT Mark
